@@ -208,6 +208,41 @@ pub fn run_c05(rep: &mut Report) {
     }
     rep.count("frames_through_add_bit_fresh_and_after_each_frame_class", serial);
 
+    // ---- after a very long run of rejected frames on one decoder (a stuck line): every frame, one after the other,
+    //      must still be judged by the rule
+    for (pname, w, n) in [("after-140000-bad-stop-frames", 0x000u16, 140_000u32), ("after-140000-bad-start-frames", 0x7FF, 140_000), ("after-70000-bad-parity-frames", encode_frame(0x33) ^ 0x200, 70_000)] {
+        let r = guarded(|| {
+            let mut d = Ps2Decoder::new();
+            for _ in 0..n {
+                for i in 0..11 {
+                    let _ = d.add_bit((w >> i) & 1 == 1);
+                }
+            }
+            let mut bad = None;
+            for f in 0..2048u16 {
+                let mut last = Ok(None);
+                for i in 0..11 {
+                    last = d.add_bit((f >> i) & 1 == 1);
+                }
+                let want: BitRes = frame_expect(f).map(Some);
+                if last != want && bad.is_none() {
+                    bad = Some((f, bitres_str(&want), bitres_str(&last)));
+                }
+            }
+            bad
+        });
+        rep.evaluations += 2048;
+        match r {
+            Ok(None) => {}
+            Ok(Some((f, want, got))) => rep.violate(
+                format!("C05|add_bit|prev={}|word=0x{:03X}|class={}|want={}|got={}", pname, f, frame_class(f), want, got),
+                format!("frame {} ({}) shifted in bit by bit {}: rule says {}, the 11th add_bit returned {}", word_bits(f), frame_class(f), pname, want, got),
+                J::obj().with("kind", J::s("long-run")).with("word", J::u(w as u64)).with("copies", J::u(n as u64)),
+            ),
+            Err(p) => rep.violate(format!("C05|add_bit|prev={}|panic|{}", pname, panic_sig(&p)), format!("panicked {}: {}", pname, p), J::Null),
+        }
+    }
+
     // ---- Keyboard::add_word = frame rule ∘ scancode decoder, in every scancode prefix state
     // Keyboard::add_word feeds the scancode stage with every byte in every prefix state: run it in a child process, so
     // that a tree whose scancode decoder aborts on garbage does not take this (frame-rule) check down with it
@@ -508,7 +543,43 @@ fn feed_and_check(d: &mut Ps2Decoder, w: u16, prev: &str, prev_ops: &dyn Fn() ->
     ok
 }
 
+/// More than 2^32 bits through one decoder, every 11th-bit result verified (a free-running 32-bit counter wraps here).
+/// Inherently sequential (~8 s), so it runs on its own thread beside the rest of the C06 monitor.
+fn run_2_32_bits() -> (u64, Option<(String, String)>) {
+    let total_frames: u64 = (1u64 << 32) / 11 + 200_000;
+    let r = guarded(|| {
+        let mut d = Ps2Decoder::new();
+        let f = [encode_frame(0x1C), encode_frame(0xF0), 0x7FFu16, encode_frame(0x5A)];
+        let wants: Vec<BitRes> = f.iter().map(|w| whole_word(*w).map(Some)).collect();
+        for n in 0..total_frames {
+            let k = (n & 3) as usize;
+            let w = f[k];
+            for i in 0..11 {
+                let r = d.add_bit((w >> i) & 1 == 1);
+                if i < 10 {
+                    if r != Ok(None) {
+                        return Some((n, i, bitres_str(&r)));
+                    }
+                } else if r != wants[k] {
+                    return Some((n, i, bitres_str(&r)));
+                }
+            }
+        }
+        None
+    });
+    let v = match r {
+        Ok(None) => None,
+        Ok(Some((n, i, got))) => Some((
+            format!("C06|2^32-run|bit#{}|got={}", i + 1, got),
+            format!("after {} frames ({} bits) on one decoder, bit {} of the next frame returned {}", n, n * 11, i + 1, got),
+        )),
+        Err(p) => Some((format!("C06|panic|2^32-run|{}", panic_sig(&p)), format!("the 2^32-bit run panicked: {}", p))),
+    };
+    (total_frames * 11, v)
+}
+
 pub fn run_c06(rep: &mut Report) {
+    let long_run = std::thread::spawn(run_2_32_bits);
     let fresh_dbg = format!("{:?}", Ps2Decoder::new());
     let mut out = Out::default();
 
@@ -763,6 +834,69 @@ pub fn run_c06(rep: &mut Report) {
         rep.count("frame_triples", n / 3);
     }
 
+    // ---------------------------------------------------------------- (b3) very long runs on one decoder, every 11th-bit result verified:
+    //      hundreds of thousands of rejected frames in a row (a stuck line), and in the thorough tier more than 2^32 bits
+    {
+        let run_frames: u64 = if rep.thorough() { 2_000_000 } else { 300_000 };
+        let words = [0x000u16, 0x7FF, encode_frame(0x55) ^ 0x200, encode_frame(0xF0), 0x001, encode_frame(0x00)];
+        let shards = par_map(words.len().min(threads.max(1)), move |t| {
+            let mut out = Out::default();
+            let w = words[t % words.len()];
+            let want: BitRes = whole_word(w).map(Some);
+            let follow = encode_frame(0xA5);
+            let wantf: BitRes = whole_word(follow).map(Some);
+            let r = guarded(|| {
+                let mut d = Ps2Decoder::new();
+                for n in 0..run_frames {
+                    for i in 0..11 {
+                        let r = d.add_bit((w >> i) & 1 == 1);
+                        let exp: BitRes = if i < 10 { Ok(None) } else { want };
+                        if r != exp {
+                            return Some((n, i, bitres_str(&r), bitres_str(&exp), false));
+                        }
+                    }
+                    // every 4096 frames: a different (valid) frame must still decode
+                    if n % 4096 == 4095 || n + 1 == run_frames {
+                        for i in 0..11 {
+                            let r = d.add_bit((follow >> i) & 1 == 1);
+                            let exp: BitRes = if i < 10 { Ok(None) } else { wantf };
+                            if r != exp {
+                                return Some((n, i, bitres_str(&r), bitres_str(&exp), true));
+                            }
+                        }
+                    }
+                }
+                None
+            });
+            out.add_bits += run_frames * 11;
+            match r {
+                Ok(None) => {}
+                Ok(Some((n, i, got, exp, on_follower))) => out.violations.push((
+                    format!("C06|long-run|frame=0x{:03X}|{}|bit#{}|want={}|got={}", w, if on_follower { "follower" } else { "repeated" }, i + 1, exp, got),
+                    format!(
+                        "after {} consecutive copies of frame {} on one decoder, bit {} of the {} frame returned {} instead of {}",
+                        n,
+                        word_bits(w),
+                        i + 1,
+                        if on_follower { "following valid" } else { "next identical" },
+                        got,
+                        exp
+                    ),
+                    J::obj().with("kind", J::s("long-run")).with("word", J::u(w as u64)).with("copies", J::u(n)),
+                )),
+                Err(p) => {
+                    out.panics += 1;
+                    out.violations.push((format!("C06|panic|long-run|{}", panic_sig(&p)), format!("long run of frame {} panicked: {}", word_bits(w), p), J::Null));
+                }
+            }
+            out
+        });
+        for s in shards {
+            merge(&mut out, s);
+        }
+        rep.count("long_run_frames_per_word", run_frames);
+    }
+
     // ---------------------------------------------------------------- (c) clear() from every partial state, then every frame
     let prefixes: Vec<Vec<bool>> = states.values().cloned().collect();
     let fd = fresh_dbg.clone();
@@ -966,6 +1100,13 @@ pub fn run_c06(rep: &mut Report) {
     rep.count("noisy_stream_clears", noisy_clears);
     rep.count("noisy_stream_frame_boundaries", noisy_frames);
 
+    if let Ok((bits, v)) = long_run.join() {
+        rep.evaluations += bits;
+        rep.count("bits_through_one_decoder_in_the_2^32_run", bits);
+        if let Some((sig, what)) = v {
+            rep.violate(sig, what, J::obj().with("kind", J::s("long-run")));
+        }
+    }
     rep.evaluations += out.add_bits;
     rep.panics += out.panics;
     rep.count("add_bit_calls", out.add_bits);
